@@ -91,6 +91,26 @@ def all_ids():
     return sorted(os.path.basename(p)[:-5] for p in glob.glob(os.path.join(VERIF, "checks", "C*.json")))
 
 
+RUNDIR = "run-%d" % os.getpid()
+
+
+def check_dir(cid):
+    """Per-invocation scratch directory of a check (concurrent invocations must not share it)."""
+    return os.path.join(VERIF, "work", repo_tag(REPO), cid, RUNDIR)
+
+
+def prune_run_dirs(cid):
+    base = os.path.join(VERIF, "work", repo_tag(REPO), cid)
+    if not os.path.isdir(base):
+        return
+    for d in os.listdir(base):
+        m = re.match(r"run-(\d+)$", d)
+        if m and not os.path.exists("/proc/%s" % m.group(1)):
+            shutil.rmtree(os.path.join(base, d), ignore_errors=True)
+        elif not m and d != "replays" and d != "evidence.json":
+            shutil.rmtree(os.path.join(base, d), ignore_errors=True)  # layout of older driver versions
+
+
 def repo_tag(repo):
     return "main" if repo == "/repo" else hashlib.sha1(repo.encode()).hexdigest()[:8]
 
@@ -155,7 +175,7 @@ class Run:
         self.timeout = timeout
         self.out = ""
         self.rc = None
-        self.wdir = os.path.join(VERIF, "work", repo_tag(REPO), cid, "%s-%s%d" % (unit["name"], "r" if race else "s", shard))
+        self.wdir = os.path.join(check_dir(cid), "%s-%s%d" % (unit["name"], "r" if race else "s", shard))
         self.stats = os.path.join(self.wdir, "stats.jsonl")
         self.hashes = os.path.join(self.wdir, "hashes.txt")
         self.timed_out = False
@@ -365,6 +385,7 @@ def interesting(out, n=80):
 
 def run_check(cid, tier, replay=None, build_only=False):
     cfg = load_check(cid)
+    prune_run_dirs(cid)
     seed = int(os.environ.get("VERIF_SEED", "1") or "1")
     if seed == 0:
         seed = 1
@@ -471,8 +492,8 @@ def run_check(cid, tier, replay=None, build_only=False):
     cmp_viol = None
     if status == "ok" and not replay and not only_units:
         for a, b in cfg.get("compare_files", []):
-            pa = os.path.join(VERIF, "work", repo_tag(REPO), cid, a)
-            pb = os.path.join(VERIF, "work", repo_tag(REPO), cid, b)
+            pa = os.path.join(check_dir(cid), a)
+            pb = os.path.join(check_dir(cid), b)
             if not (os.path.exists(pa) and os.path.exists(pb)):
                 status = "inconclusive"
                 extra_notes.append("compare_files: missing %s or %s" % (a, b))
@@ -523,6 +544,8 @@ def run_check(cid, tier, replay=None, build_only=False):
         if r is not None:
             print("INCONCLUSIVE run rc=%s timed_out=%s\n%s" % (r.rc, r.timed_out, tail(r.out, 40)))
         return 2
+    if status == "ok":
+        shutil.rmtree(check_dir(cid), ignore_errors=True)
     if not replay and (cov["evaluations"] < 1 or cov["distinct_nontrivial"] < 2 or not cov["samples"]):
         print("INCONCLUSIVE: vacuous run (evaluations=%d distinct_nontrivial=%d)" % (cov["evaluations"], cov["distinct_nontrivial"]))
         return 2
@@ -562,7 +585,7 @@ def run_fuzz(cid, unit, fz, seed):
         info["note"] = "fuzz build failed"
         return {"status": "inconclusive", "info": info, "run": None}
     r = Run(cid, unit, "thorough", seed, 0, binary, 1, run_regex="^$")
-    r.wdir = os.path.join(VERIF, "work", repo_tag(REPO), cid, "%s-fuzz-%s" % (unit["name"], fz["target"]))
+    r.wdir = os.path.join(check_dir(cid), "%s-fuzz-%s" % (unit["name"], fz["target"]))
     r.stats = os.path.join(r.wdir, "stats.jsonl")
     r.hashes = os.path.join(r.wdir, "hashes.txt")
     shutil.rmtree(r.wdir, ignore_errors=True)
